@@ -171,7 +171,9 @@ IMAGE_FIELDS = [("path", "str-nonblank", 3), ("mtime", "int", 0), ("size", "int-
 TREE_RELEASE_FIELDS = [("name", "str", 3), ("short", "str", 3), ("version", "tree-version", 5), ("is_layered", "bool", 0)]
 TREE_BP_FIELDS = [("name", "str", 3), ("short", "str", 3), ("version", "tree-version", 5)]
 TREE_FIELDS = [("arch", "str-nonblank", 3), ("build_timestamp", "number-nonzero", 0)]
-TREE_VARIANT_FIELDS = [("type", "tree-variant-type", 10)]
+TREE_VARIANT_FIELDS = [("type", "tree-variant-type", 10), ("name", "text-or-none", 3)]
+# text fields without a validator of their own: the file writer is what refuses a non-text value
+TREE_PATH_FIELDS = [("packages", "text-or-none", 3), ("repository", "text-or-none", 3), ("debug_packages", "text-or-none", 3), ("identity", "text-or-none", 3)]
 TREE_MEDIA_FIELDS = [("discnum", "int-or-none", 0), ("totaldiscs", "int-or-none", 0)]
 DISCINFO_FIELDS = [("timestamp", "float-nonzero", 0), ("description", "str-nonblank", 3), ("arch", "str-nonblank", 3),
                    ("disc_numbers", "nonblank-list", 0)]
@@ -204,6 +206,8 @@ def locate(fmt, position, k):
             return ti, getattr(ti, position)
         if position.startswith("v:"):
             return ti, objs[position[2:]]
+        if position.startswith("vp:"):
+            return ti, objs[position[3:]].paths
         if position.startswith("images:"):
             return ti, ti.images.images[position[7:] if position[7:] != "ARCH" else ti.tree.arch]
     raise ValueError(fmt)
@@ -473,6 +477,8 @@ def jobs(tier, seed):
     add("treeinfo", "media", TREE_MEDIA_FIELDS, ks)
     for uid in ("Server", "Server-HA", "Client"):
         add("treeinfo", "v:" + uid, TREE_VARIANT_FIELDS, ks)
+    for uid in ("Server", "Server-HA"):
+        add("treeinfo", "vp:" + uid, TREE_PATH_FIELDS, ks)
     for case in ("child-arch-outside-parent", "grandchild-arch-outside-parent-inside-top", "child-arch-outside-parent-first-child", "misaligned-uid", "misaligned-top-uid", "empty-arches",
                  "bad-variant-id", "bad-variant-id-aligned", "bad-child-id-aligned", "additional-variants-on-non-unified", "empty-checksums", "tree-absolute-checksum-path", "tree-unreferenced-platform", "tree-unreferenced-platform-empty", "tree-unreferenced-own-arch",
                  "tree-absolute-image-path", "tree-absolute-stage2", "tree-misaligned-child-uid", "tree-dashed-variant-id"):
